@@ -53,6 +53,11 @@ def ampAt (c : ChanState) (t : Int) : List Contrib := contribAt c.pulseSlots t
 /-- `det[t]` after `det[s.ti : s.tf] += pulse.detuning.samples` for every pulse. -/
 def detAt (c : ChanState) (t : Int) : List Contrib := contribAt c.pulseSlots t
 
+/-- The value of a structural sample once the pulses' own samples `σ slot index` are given
+(what the `+=` of `get_samples` accumulate into the initial zero). -/
+def termsValue (σ : Nat → Int → Rat) (l : List Contrib) : Rat :=
+  (l.map fun (x : Contrib) => σ x.1 x.2).sum
+
 /-- `not (ignore_detuned_delay_phase and self.is_detuned_delay(pulse))`. -/
 def counts (ign : Bool) (x : PSlot) : Bool := !(ign && x.p.dd)
 
